@@ -184,6 +184,8 @@ def run(ctx, ck):
     from ..mainx import main_slices, feasible_counts
     from ..symx import simplify
     mainf = m.func('mininec.main')
+    if sum(1 for x_ in ast.walk(mainf.node) if isinstance(x_, ast.For) and 'args.' in norm(x_.iter)) < 5:
+        mainf = ctx.flat('mininec.main')        # (the options are consumed in step functions of main: judged inlined)
     n_in = 0
     seen_in = {}
 
